@@ -11,6 +11,7 @@ import (
 	"strconv"
 	"strings"
 
+	"google.golang.org/protobuf/encoding/protowire"
 	"google.golang.org/protobuf/reflect/protoreflect"
 )
 
@@ -53,37 +54,37 @@ func ScalarValues(fd protoreflect.FieldDescriptor, o Opt) []protoreflect.Value {
 	case protoreflect.BoolKind:
 		out = append(out, protoreflect.ValueOfBool(false), protoreflect.ValueOfBool(true))
 	case protoreflect.Int32Kind, protoreflect.Sint32Kind, protoreflect.Sfixed32Kind:
-		for _, v := range thin(o, ints32, 2, 3) {
+		for _, v := range thin(o, ints32, 0, 2, 3) {
 			out = append(out, protoreflect.ValueOfInt32(v))
 		}
 	case protoreflect.Int64Kind, protoreflect.Sint64Kind, protoreflect.Sfixed64Kind:
-		for _, v := range thin(o, ints64, 2, 4) {
+		for _, v := range thin(o, ints64, 0, 2, 4) {
 			out = append(out, protoreflect.ValueOfInt64(v))
 		}
 	case protoreflect.Uint32Kind, protoreflect.Fixed32Kind:
-		for _, v := range thin(o, uints32, 1, 3) {
+		for _, v := range thin(o, uints32, 0, 3) {
 			out = append(out, protoreflect.ValueOfUint32(v))
 		}
 	case protoreflect.Uint64Kind, protoreflect.Fixed64Kind:
-		for _, v := range thin(o, uints64, 1, 3) {
+		for _, v := range thin(o, uints64, 0, 3) {
 			out = append(out, protoreflect.ValueOfUint64(v))
 		}
 	case protoreflect.FloatKind:
-		for _, v := range thin(o, floats32, 2, 4) {
+		for _, v := range thin(o, floats32, 0, 1, 2, 4) {
 			if o.NoNegZero && v == 0 && math.Signbit(float64(v)) {
 				continue
 			}
 			out = append(out, protoreflect.ValueOfFloat32(v))
 		}
 	case protoreflect.DoubleKind:
-		for _, v := range thin(o, floats64, 3, 9) {
+		for _, v := range thin(o, floats64, 0, 1, 3, 4) {
 			if o.NoNegZero && v == 0 && math.Signbit(v) {
 				continue
 			}
 			out = append(out, protoreflect.ValueOfFloat64(v))
 		}
 	case protoreflect.StringKind:
-		for _, v := range thin(o, strs, 1, 3) {
+		for _, v := range thin(o, strs, 0, 1, 3) {
 			out = append(out, protoreflect.ValueOfString(v))
 		}
 		if o.InvalidUTF8 {
@@ -92,7 +93,7 @@ func ScalarValues(fd protoreflect.FieldDescriptor, o Opt) []protoreflect.Value {
 			}
 		}
 	case protoreflect.BytesKind:
-		for _, v := range thin(o, byteses, 2, 4) {
+		for _, v := range thin(o, byteses, 1, 4) {
 			out = append(out, protoreflect.ValueOfBytes(v))
 		}
 	case protoreflect.EnumKind:
@@ -239,11 +240,21 @@ func sortKeys(keys []protoreflect.MapKey) {
 // extensions by number, unknown bytes. NaNs are identified.
 func Snapshot(m protoreflect.Message) string {
 	var sb strings.Builder
-	snapshot(&sb, m)
+	snapshot(&sb, m, false)
 	return sb.String()
 }
 
-func snapshot(sb *strings.Builder, m protoreflect.Message) {
+// EqualKey is the reference model of proto.Equal: two messages of one type
+// are equal iff their keys are. It differs from Snapshot in identifying -0
+// with +0 (Equal compares floats with ==) and in grouping unknown records by
+// field number (order within a number is kept).
+func EqualKey(m protoreflect.Message) string {
+	var sb strings.Builder
+	snapshot(&sb, m, true)
+	return sb.String()
+}
+
+func snapshot(sb *strings.Builder, m protoreflect.Message, eqkey bool) {
 	if !m.IsValid() {
 		sb.WriteString("<invalid>")
 	}
@@ -260,7 +271,7 @@ func snapshot(sb *strings.Builder, m protoreflect.Message) {
 			continue
 		}
 		fmt.Fprintf(sb, "%d:", fd.Number())
-		snapValue(sb, fd, m.Get(fd))
+		snapValue(sb, fd, m.Get(fd), eqkey)
 		sb.WriteByte(' ')
 	}
 	var exts []protoreflect.FieldDescriptor
@@ -275,16 +286,43 @@ func snapshot(sb *strings.Builder, m protoreflect.Message) {
 	sort.Slice(exts, func(a, b int) bool { return exts[a].Number() < exts[b].Number() })
 	for _, fd := range exts {
 		fmt.Fprintf(sb, "x%d:", fd.Number())
-		snapValue(sb, fd, vals[fd.Number()])
+		snapValue(sb, fd, vals[fd.Number()], eqkey)
 		sb.WriteByte(' ')
 	}
 	if u := m.GetUnknown(); len(u) > 0 {
+		if eqkey {
+			u = groupUnknown(u)
+		}
 		fmt.Fprintf(sb, "?:%x", []byte(u))
 	}
 	sb.WriteByte('}')
 }
 
-func snapValue(sb *strings.Builder, fd protoreflect.FieldDescriptor, v protoreflect.Value) {
+// groupUnknown stable-sorts unknown records by field number.
+func groupUnknown(u protoreflect.RawFields) protoreflect.RawFields {
+	type rec struct {
+		num protowire.Number
+		b   []byte
+	}
+	var recs []rec
+	b := []byte(u)
+	for len(b) > 0 {
+		num, _, n := protowire.ConsumeField(b)
+		if n < 0 {
+			return u
+		}
+		recs = append(recs, rec{num, b[:n]})
+		b = b[n:]
+	}
+	sort.SliceStable(recs, func(i, j int) bool { return recs[i].num < recs[j].num })
+	var out []byte
+	for _, r := range recs {
+		out = append(out, r.b...)
+	}
+	return out
+}
+
+func snapValue(sb *strings.Builder, fd protoreflect.FieldDescriptor, v protoreflect.Value, eqkey bool) {
 	switch {
 	case fd.IsList():
 		l := v.List()
@@ -293,7 +331,7 @@ func snapValue(sb *strings.Builder, fd protoreflect.FieldDescriptor, v protorefl
 			if i > 0 {
 				sb.WriteByte(',')
 			}
-			snapSingle(sb, fd, l.Get(i))
+			snapSingle(sb, fd, l.Get(i), eqkey)
 		}
 		sb.WriteByte(']')
 	case fd.IsMap():
@@ -308,18 +346,30 @@ func snapValue(sb *strings.Builder, fd protoreflect.FieldDescriptor, v protorefl
 			}
 			sb.WriteString(formatKey(k))
 			sb.WriteByte('=')
-			snapSingle(sb, fd.MapValue(), mp.Get(k))
+			snapSingle(sb, fd.MapValue(), mp.Get(k), eqkey)
 		}
 		sb.WriteByte('>')
 	default:
-		snapSingle(sb, fd, v)
+		snapSingle(sb, fd, v, eqkey)
 	}
 }
 
-func snapSingle(sb *strings.Builder, fd protoreflect.FieldDescriptor, v protoreflect.Value) {
+func snapSingle(sb *strings.Builder, fd protoreflect.FieldDescriptor, v protoreflect.Value, eqkey bool) {
 	if fd.Message() != nil {
-		snapshot(sb, v.Message())
+		snapshot(sb, v.Message(), eqkey)
 		return
+	}
+	if eqkey {
+		switch x := v.Interface().(type) {
+		case float32:
+			if x == 0 {
+				v = protoreflect.ValueOfFloat32(0)
+			}
+		case float64:
+			if x == 0 {
+				v = protoreflect.ValueOfFloat64(0)
+			}
+		}
 	}
 	if fd.Kind() == protoreflect.BytesKind {
 		// nil and empty bytes are the same content
